@@ -105,7 +105,7 @@ def setup_crate(project_dir, body, router=False):
         f.write(main)
 
 
-def call_expr(macro, locale_ident, keypath, fields, values, counts, scope_depth=0):
+def call_expr(macro, locale_ident, keypath, fields, values, counts, scope_depth=0, comp_kind=None):
     """td_string!(Locale::en, a.b, x = "..", count = 3u8, <b> = "b")"""
     args = ["Locale::%s" % locale_ident, ".".join(keypath)]
     if scope_depth:
@@ -117,7 +117,17 @@ def call_expr(macro, locale_ident, keypath, fields, values, counts, scope_depth=
             n = f[len("comp_"):]
             # comp(children) = ⟦n⟧children⟦/n⟧ : deliberately not the literal tag syntax, so that a tag left as plain text
             # cannot be mistaken for an applied component
-            if view:
+            if comp_kind and not view:
+                # the library's own DisplayComponent implementations: &str, String, DisplayComp with k attributes
+                if comp_kind == "str":
+                    args.append("<%s> = %s" % (n, rust_str("w" + n)))
+                elif comp_kind == "string":
+                    args.append("<%s> = String::from(%s)" % (n, rust_str("w" + n)))
+                else:
+                    k = int(comp_kind[2:])
+                    attrs = ", ".join("(%s, %s)" % (rust_str("a%d" % i), rust_str("v%d %s" % (i, n))) for i in range(k))
+                    args.append("<%s> = leptos_i18n::display::DisplayComp::new(%s, &[%s])" % (n, rust_str("w" + n), attrs))
+            elif view:
                 args.append("<%s> = |c: leptos::children::ChildrenFn| leptos::view! { %s {c()} %s }" % (n, rust_str(OPEN % n), rust_str(CLOSE % n)))
             else:
                 args.append("<%s> = |f: &mut core::fmt::Formatter<'_>, c: &dyn Fn(&mut core::fmt::Formatter<'_>) -> core::fmt::Result| { f.write_str(%s)?; c(f)?; f.write_str(%s) }"
@@ -148,7 +158,7 @@ def run_requests(project_dir, requests, timeout=900):
     -> list of texts (or {"error":..})"""
     lines = []
     for i, r in enumerate(requests):
-        e = call_expr(r.get("macro", "td_string"), r["locale"], r["path"], r["fields"], r.get("strings", {}), r.get("nums", {}), r.get("scope_depth", 0))
+        e = call_expr(r.get("macro", "td_string"), r["locale"], r["path"], r["fields"], r.get("strings", {}), r.get("nums", {}), r.get("scope_depth", 0), r.get("comp_kind"))
         lines.append('    println!("{}\\t{}", %d, hex(&%s.to_string()));' % (i, e))
     setup_crate(project_dir, "\n".join(lines))
     env = dict(os.environ, CARGO_NET_OFFLINE="true", CARGO_TARGET_DIR=TARGET)
@@ -193,6 +203,12 @@ def eval_term(t, env):
         if f.startswith("comp_"):
             n = f[len("comp_"):]
             inner = eval_term(t["a"][0]["v"], env)
+            ck = env.get("comp")
+            if ck in ("str", "string"):
+                return "<w%s>%s</w%s>" % (n, inner, n)
+            if ck:
+                attrs = "".join(' a%d="v%d %s"' % (i, i, n) for i in range(int(ck[2:])))
+                return "<w%s%s>%s</w%s>" % (n, attrs, inner, n)
             return (OPEN % n) + inner + (CLOSE % n)
         raise ReplayError("cannot evaluate %s concretely" % f)
     if k == "unreach":
